@@ -27,12 +27,13 @@ import (
 // and so makes a real execution deterministic given the schedule in the case.
 //
 // ops:  pkg:t|r                       tcpassembly | reassembly
-//       th:<tid>:<op>,<op>,...        program of one assembler; op = fl (FlushAll) or a packet
-//                                     <flow a..><dir 0|1><flags S|F|SF|->.<seq>.<payload hex>
-//       sched:<tid>,<tid>,...         schedule; an entry naming a thread that cannot step is skipped,
-//                                     afterwards the lowest enabled thread runs until none is enabled;
-//                                     when every thread returned an extra assembler calls FlushAll
-//       race:<rounds>                 (support run) free-running workloads under a -race build
+//
+//	th:<tid>:<op>,<op>,...        program of one assembler; op = fl (FlushAll) or a packet
+//	                              <flow a..><dir 0|1><flags S|F|SF|->.<seq>.<payload hex>
+//	sched:<tid>,<tid>,...         schedule; an entry naming a thread that cannot step is skipped,
+//	                              afterwards the lowest enabled thread runs until none is enabled;
+//	                              when every thread returned an extra assembler calls FlushAll
+//	race:<rounds>                 (support run) free-running workloads under a -race build
 //
 // Observation: one line per factory.New / Reassembled / ReassemblyComplete / panic with the thread,
 // the stream number and the connection object whose lock the thread holds, then
@@ -166,6 +167,8 @@ type c12Thread struct {
 	tasm     *tcpassembly.Assembler
 	rasm     *reassembly.Assembler
 	panicked bool
+	curPkt   *c12Pkt // the packet of the Assemble call in progress (nil during FlushAll)
+	recycled bool    // the object this thread looked up was taken from the free list again before the thread locked it
 }
 
 type c12Msg struct {
@@ -192,7 +195,8 @@ type c12Ctl struct {
 	events   []string
 	oracle   []string
 	tags     map[string]bool
-	kept     map[int]bool    // streams seen in a pool entry
+	kept     map[int]bool      // streams seen in a pool entry
+	evicted  map[int]bool      // streams whose pool entry was deleted by the remove of another object
 	dirBytes map[string][]byte // (flow,dir) -> payload bytes delivered, in event order
 	tpool    *tcpassembly.StreamPool
 	rpool    *reassembly.StreamPool
@@ -221,6 +225,11 @@ func (ctl *c12Ctl) hook(site string, obj interface{}) {
 			ctl.nconn++
 		} else {
 			ctl.tags["recycle"] = true
+			for _, o := range ctl.threads {
+				if o.site == "conn.lock" && o.want == obj {
+					o.recycled = true
+				}
+			}
 		}
 		return
 	case "conn.unlock":
@@ -231,6 +240,9 @@ func (ctl *c12Ctl) hook(site string, obj interface{}) {
 		}
 		return
 	}
+	if site == "pool.remove" {
+		ctl.noteRemove(obj)
+	}
 	th.site, th.want = site, obj
 	ctl.back <- c12Msg{tid: th.id}
 	<-th.resume
@@ -238,6 +250,31 @@ func (ctl *c12Ctl) hook(site string, obj interface{}) {
 		ctl.owner[obj] = th.id
 	}
 	th.site, th.want = "", nil
+}
+
+// noteRemove: remove(conn) deletes the map entry of conn.key; when that entry holds another
+// object, that object's stream loses its pool entry without being completed
+func (ctl *c12Ctl) noteRemove(obj interface{}) {
+	key, _, _ := ctl.connInfo(obj)
+	check := func(k string, c interface{}) {
+		if k == key && c != obj {
+			_, st, _ := ctl.connInfo(c)
+			if id := ctl.streamID(st); id >= 0 {
+				ctl.evicted[id] = true
+			}
+		}
+	}
+	if ctl.pkg == "t" {
+		es, _ := tcpassembly.VerifPoolState(ctl.tpool)
+		for _, e := range es {
+			check(c12KeyName(e.Net, e.Transport), e.Conn)
+		}
+	} else {
+		es, _ := reassembly.VerifPoolState(ctl.rpool)
+		for _, e := range es {
+			check(c12KeyName(e.Net, e.Transport), e.Conn)
+		}
+	}
 }
 
 func (ctl *c12Ctl) rank(obj interface{}) int {
@@ -281,7 +318,23 @@ func (ctl *c12Ctl) callback(s *c12Stream, what string) {
 	} else {
 		ctl.fail("C12:mutex", fmt.Sprintf("callback on stream %d by thread %d holding %d connection locks", s.id, ctl.cur, n))
 	}
+	// the packet being assembled belongs to the connection the stream was created for
+	if pk := ctl.threads[ctl.cur].curPkt; pk != nil {
+		k := fmt.Sprintf("%c%d", 'a'+pk.flow, pk.dir)
+		rk := fmt.Sprintf("%c%d", 'a'+pk.flow, 1-pk.dir)
+		if !(s.key == k || (ctl.pkg == "r" && s.key == rk)) {
+			ctl.wrongStream(fmt.Sprintf("a packet of %s caused a callback on the stream created for %s", k, s.key))
+		}
+	}
 	ctl.events = append(ctl.events, fmt.Sprintf("%s;t=%d;s=%d;c=%d", what, ctl.cur, s.id, c))
+}
+
+func (ctl *c12Ctl) wrongStream(what string) {
+	how := "the connection object was NOT recycled in between"
+	if ctl.threads[ctl.cur].recycled {
+		how = "the connection object was closed, recycled and reset for the other key between this assembler's lookup and its conn.mu.Lock()"
+	}
+	ctl.fail("C12:wrong-stream", what+"; "+how)
 }
 
 func (ctl *c12Ctl) checkBytes(s *c12Stream, sgdir int, b []byte) {
@@ -290,7 +343,7 @@ func (ctl *c12Ctl) checkBytes(s *c12Stream, sgdir int, b []byte) {
 	dir := int(s.key[1]-'0') ^ sgdir
 	for _, x := range b {
 		if int(x>>4) != flow+1 || int(x>>3)&1 != dir {
-			ctl.fail("C12:wrong-stream", fmt.Sprintf("stream of %s received byte %02x of another connection", s.key, x))
+			ctl.wrongStream(fmt.Sprintf("stream of %s received byte %02x of another connection", s.key, x))
 		}
 		k := fmt.Sprintf("%c%d", 'a'+int(x>>4)-1, int(x>>3)&1)
 		ctl.dirBytes[k] = append(ctl.dirBytes[k], x)
@@ -400,6 +453,8 @@ func (ctl *c12Ctl) streamIs(st interface{}, s *c12Stream) bool {
 func (ctl *c12Ctl) runOp(th *c12Thread, op c12Op) {
 	ctl.nops++
 	ts := ctl.ts.Add(time.Duration(ctl.nops) * time.Millisecond)
+	th.curPkt = nil
+	th.recycled = false
 	if op.flush {
 		if ctl.pkg == "t" {
 			th.tasm.FlushAll()
@@ -409,6 +464,8 @@ func (ctl *c12Ctl) runOp(th *c12Thread, op c12Op) {
 		return
 	}
 	p := op.pkt
+	th.curPkt = &p
+	defer func() { th.curPkt = nil }()
 	nf, tf := c12Flows(p.flow, p.dir)
 	_ = tf
 	tcp := &layers.TCP{Seq: p.seq, SYN: p.syn, FIN: p.fin}
@@ -613,7 +670,7 @@ func (ctl *c12Ctl) addThread(prog []c12Op) *c12Thread {
 // phase are kept (for the exhaustive enumeration of schedules).
 func c12Execute(p c12Case, record bool) (*c12Ctl, string) {
 	ctl := &c12Ctl{pkg: p.pkg, back: make(chan c12Msg), owner: map[interface{}]int{}, connID: map[interface{}]int{},
-		tags: map[string]bool{}, kept: map[int]bool{}, dirBytes: map[string][]byte{},
+		tags: map[string]bool{}, kept: map[int]bool{}, evicted: map[int]bool{}, dirBytes: map[string][]byte{},
 		ts: time.Unix(1700000000, 0)}
 	if p.pkg == "t" {
 		ctl.tpool = tcpassembly.NewStreamPool(c12TFactory{ctl})
@@ -709,7 +766,11 @@ func (c12) Run(c Case) Result {
 			ctl.fail("C12:complete-once", fmt.Sprintf("stream %d of %s completed %d times", s.id, s.key, s.completes))
 		}
 		if status == "done" && ctl.kept[s.id] && s.completes != 1 {
-			ctl.fail("C12:complete-once", fmt.Sprintf("stream %d of %s was in the pool and is completed %d times after the final FlushAll", s.id, s.key, s.completes))
+			how := "its pool entry was never deleted by another object's remove"
+			if ctl.evicted[s.id] {
+				how = "its pool entry was deleted by the remove of a recycled connection object that carried the same key"
+			}
+			ctl.fail("C12:complete-once", fmt.Sprintf("stream %d of %s was in the pool and is completed %d times after the final FlushAll; %s", s.id, s.key, s.completes, how))
 		}
 	}
 	// C12:inorder: a direction fed in increasing order by one assembler is delivered in that order
